@@ -194,6 +194,24 @@ func verifC10Record(r *verifRunner, rec map[string]any) {
 		}
 		att[tn] = l
 	}
+	// p2p topics: subscribers whose cached entry has no topic name (Topic.original(uid) == ""): every notification the topic
+	// addresses to such a user carries an empty source
+	noname := map[string]any{}
+	for _, tn := range r.b.Cfg.Topics {
+		l := []string{}
+		cn := w.canon(tn)
+		if tp := w.hub.topicGet(cn); tp != nil && cn != "" && !tp.isInactive() && strings.HasPrefix(cn, "p2p") {
+			for uid, pud := range tp.perUser {
+				if !pud.deleted && pud.topicName == "" {
+					if u := w.absUser(uid.UserId()); !strings.HasPrefix(u, "?") {
+						l = append(l, u)
+					}
+				}
+			}
+			sort.Strings(l)
+		}
+		noname[tn] = l
+	}
 	sb := map[string]any{}
 	for _, s := range r.sortedKeys(r.b.Cfg.Sess) {
 		e := map[string]any{"live": false, "bg": false, "dbg": false, "forced": false}
@@ -207,7 +225,7 @@ func verifC10Record(r *verifRunner, rec map[string]any) {
 		idle = verifC10Idle
 		verifC10Idle = nil
 	}
-	c10 := map[string]any{"idle": idle, "me": me, "att": att, "sess": sb, "ann": tann, "supd": tsupd}
+	c10 := map[string]any{"idle": idle, "me": me, "att": att, "sess": sb, "ann": tann, "supd": tsupd, "noname": noname}
 	if os.Getenv("VERIF_C10_SELFTEST") == "1" {
 		// self-test of the binding (never set by tools/props/c10.py in normal runs): corrupt one recorded observation —
 		// the online counter of the first attached user of every loaded group topic is reported one too high.
